@@ -116,7 +116,9 @@ OpConsumeCursor(ts, kind, n, end) ==     \* IntoIter: len -= 1; read(len)  -- po
       leak == IF end = "forget" THEN rem ELSE {}
       dk == {e.kt : e \in dead} \cup (IF kind = "into_values" THEN {e.kt : e \in taken} ELSE {})
       dv == {e.vt : e \in dead} \cup (IF kind = "into_keys" THEN {e.vt : e \in taken} ELSE {})
-  IN ResL(Episode(kind, order, n, Len(ts)), <<>>, dk, dv, {e.kt : e \in leak}, {e.vt : e \in leak})
+      \* Debug of IntoIter / IntoKeys / IntoValues renders the remaining map front to back
+      shown == ProjSeq(kind, Prefix(ts, Len(ts) - n))
+  IN ResL([Episode(kind, order, n, Len(ts)) EXCEPT !.rem = shown], <<>>, dk, dv, {e.kt : e \in leak}, {e.vt : e \in leak})
 
 \* --------------------------------------------------------------- entry --
 EntryMethodsV == {"or_insert", "or_insert_with", "or_insert_with_key", "and_modify",
@@ -136,7 +138,7 @@ OpEntry(ts, cap, m, k, v, w) ==          \* entry.rs
         ELSE Res(ret, r.post, {}, {})
   IN
   CASE m = "key" ->
-         Res(IF occ THEN <<"occ">> \o JEntK(ts[i]) ELSE <<"vac">> \o JKey(k), ts, {k.kt}, {})
+         Res(IF occ THEN <<"occk">> \o JEntK(ts[i]) ELSE <<"vack">> \o JKey(k), ts, {k.kt}, {})
     [] m = "or_insert" ->
          IF occ THEN Res(<<"occ">> \o JEntV(ts[i]), ts, {k.kt}, {v.vt})
          ELSE VacInsert(v, <<"vac">> \o JVal(v))
@@ -156,15 +158,15 @@ OpEntry(ts, cap, m, k, v, w) ==          \* entry.rs
          Res(<<"vac_skip">>, ts, {k.kt}, vdead)
     [] m \in {"vac_key", "vac_into_key", "vac_insert"} /\ occ ->
          Res(<<"occ_skip">>, ts, {k.kt}, vdead)
-    [] m = "occ_key"          -> Res(<<"occ">> \o JEntK(ts[i]), ts, {k.kt}, {})
+    [] m = "occ_key"          -> Res(<<"occk">> \o JEntK(ts[i]), ts, {k.kt}, {})
     [] m = "occ_get"          -> Res(<<"occ">> \o JEntV(ts[i]), ts, {k.kt}, {})
     [] m = "occ_get_mut"      -> Res(<<"occ">> \o JEntV(ts[i]), WriteAt(ts, i, w), {k.kt}, {})
     [] m = "occ_into_mut"     -> Res(<<"occ">> \o JEntV(ts[i]), WriteAt(ts, i, w), {k.kt}, {})
     [] m = "occ_insert"       -> Res(<<"occ">> \o JEntV(ts[i]), [ts EXCEPT ![i] = Mk(KeyOf(ts[i]), v)], {k.kt}, {})
     [] m = "occ_remove"       -> Res(<<"occ">> \o JEntV(ts[i]), SwapRemove(ts, i), {k.kt, ts[i].kt}, {})
     [] m = "occ_remove_entry" -> Res(<<"occ">> \o JEnt(ts[i]), SwapRemove(ts, i), {k.kt}, {})
-    [] m = "vac_key"          -> Res(<<"vac">> \o JKey(k), ts, {k.kt}, {})
-    [] m = "vac_into_key"     -> Res(<<"vac">> \o JKey(k), ts, {}, {})
+    [] m = "vac_key"          -> Res(<<"vack">> \o JKey(k), ts, {k.kt}, {})
+    [] m = "vac_into_key"     -> Res(<<"vack">> \o JKey(k), ts, {}, {})
     [] m = "vac_insert"       -> VacInsert(v, <<"vac">> \o JVal(v))
 
 \* ------------------------------------------------------ get_disjoint_mut --
